@@ -87,7 +87,22 @@ _U = None
 # (copyable, droppable) of existential type variable ids / bound indices (function of the id)
 VATTR = [(True, True), (True, True), (False, False), (True, True), (False, True), (False, False), (True, True), (False, False)]
 BATTR = [(True, True), (False, False), (True, True), (False, True)]
-VALS = [0, 1, 2, 5, -1, 2.5]  # representatives of Python-equality classes of constant values
+# representatives of the classes of constant values under ConstValue's equality (type + value key: floats by repr, so
+# 1.0 != 1, -0.0 != 0.0, nan == nan; everything else by Python ==, so True == 1).  Indices 0..5 are used as array sizes.
+VALS = [0, 1, 2, 5, -1, 2.5, 300, 10**20, 0.0, -0.0, float("nan"), 1.0, 257]
+
+
+def vkey(v):
+    return ("float", repr(v)) if isinstance(v, float) else v
+
+
+def fresh_value(v):
+    """an equal but not identical Python object (big ints and floats are not interned)"""
+    if isinstance(v, bool):
+        return v
+    if isinstance(v, float):
+        return float(repr(v))
+    return int(str(v))
 
 
 class Universe:
@@ -171,7 +186,9 @@ def U() -> Universe:
 
 
 # ---------------------------------------------------------------------------- abstract -> real
-def build(a):
+def build(a, pres=False):
+    """pres=True sets every field that is excluded from type equality to a non-default value: TupleType/NoneType.preserve,
+    FuncInput.name"""
     from guppylang_internals.tys.arg import ConstArg, TypeArg
     from guppylang_internals.tys.const import BoundConstVar, ConstValue, ExistentialConstVar
     from guppylang_internals.tys.ty import (BoundTypeVar, ExistentialTypeVar, FuncInput, FunctionType, InputFlags,
@@ -192,31 +209,31 @@ def build(a):
     if k == "num":
         return NumericType(NumericType.Kind(a[1]))
     if k == "none":
-        return NoneType()
+        return NoneType(preserve=pres)
     if k == "cv":
-        v = VALS[a[2]]
+        v = fresh_value(VALS[a[2]])
         if a[1] == 3 and v in (0, 1):
             v = bool(v)
         return ConstValue(u.ctys[a[1]], v)
     if k == "ta":
-        return TypeArg(build(a[1]))
+        return TypeArg(build(a[1], pres))
     if k == "ca":
-        return ConstArg(build(a[1]))
+        return ConstArg(build(a[1], pres))
     if k == "fn":
         flags, p, args = a[1], a[2], a[3]
         n = len(flags)
-        inputs = [FuncInput(build(x[1]), InputFlags(f)) for x, f in zip(args[:n], flags)]
-        out = build(args[n][1])
-        ct = [build(x) for x in args[n + 1:]]
+        inputs = [FuncInput(build(x[1], pres), InputFlags(f), f"x{j_}" if pres else None) for j_, (x, f) in enumerate(zip(args[:n], flags))]
+        out = build(args[n][1], pres)
+        ct = [build(x, pres) for x in args[n + 1:]]
         if ct == u.default_comptime(p):
             return FunctionType(inputs, out, u.params[p])
         return FunctionType(inputs, out, u.params[p], comptime_args=ct)
     if k == "tup":
-        return TupleType([build(x[1]) for x in a[1]])
+        return TupleType([build(x[1], pres) for x in a[1]], preserve=pres)
     if k == "op":
-        return OpaqueType([build(x) for x in a[2]], u.odefs[a[1]][0])
+        return OpaqueType([build(x, pres) for x in a[2]], u.odefs[a[1]][0])
     if k == "st":
-        return StructType([build(x) for x in a[2]], u.sdefs[a[1] - u.SBASE][0])
+        return StructType([build(x, pres) for x in a[2]], u.sdefs[a[1] - u.SBASE][0])
     raise AssertionError(a)
 
 
@@ -247,7 +264,7 @@ def enc(x):
     if isinstance(x, NoneType):
         return ("none",)
     if isinstance(x, ConstValue):
-        return ("cv", _index(u.ctys, x.ty, "const type"), _index(VALS, x.value, "const value"))
+        return ("cv", _index(u.ctys, x.ty, "const type"), _index([vkey(v) for v in VALS], vkey(x.value), "const value"))
     if isinstance(x, TypeArg):
         return ("ta", enc(x.ty))
     if isinstance(x, ConstArg):
@@ -551,6 +568,10 @@ class Gen:
             return ("cv", 0, r.choice([0, 1, 2, 3]))
         if x < 0.7:
             return ("cv", r.choice([0, 1, 2, 3]), r.randrange(len(VALS)))
+        if x < 0.78:
+            return ("cv", 0, r.choice([6, 7, 12]))      # big nat constants: equal objects are not identical
+        if x < 0.82:
+            return ("cv", 2, r.choice([5, 8, 9, 10, 11]))  # float constants incl. 0.0 / -0.0 / nan / 1.0
         if x < 0.9:
             return ("cbv", r.choice([0, 1, 2]))
         return ("cv", 3, r.choice([0, 1]))
@@ -989,7 +1010,7 @@ class GCGen:
         if c <= 1:
             return ("tup", tuple(("ta", self.closed(depth - 1, allow_arr)) for _ in range(r.choice([2, 2, 3]))))
         if c == 2 and allow_arr:
-            return ("op", 2, (("ta", self.closed(depth - 1, False)), ("ca", ("cv", 0, r.choice([2, 3])))))
+            return ("op", 2, (("ta", self.closed(depth - 1, False)), ("ca", ("cv", 0, r.choice([2, 3, 6])))))
         if c == 3:
             return ("op", 3, (("ta", self.closed(depth - 1, False)),))
         return gc_fn([self.closed(0)], self.closed(0))
@@ -1042,15 +1063,15 @@ class GCGen:
         return self.closed_fns[ty]
 
     # ---- expressions of (roughly) a wanted closed type
-    def expr(self, ty, depth):
+    def expr(self, ty, depth, arr_ok=True):
         r = self.r
         if r.random() < 0.06:
-            ty = self.closed(1)       # near-miss: some other type
+            ty = self.closed(1, allow_arr=arr_ok)       # near-miss: some other type (no borrowed arrays inside tuple literals)
         if ty[0] == "fn":
             return ("fname", ty)
         x = r.random()
         if ty[0] == "tup" and x < 0.6 and all(gc_copyable(c[1]) for c in ty[1]):
-            return ("tuple", tuple(self.expr(c[1], depth - 1) for c in ty[1]))
+            return ("tuple", tuple(self.expr(c[1], depth - 1, arr_ok=False) for c in ty[1]))
         if ty in (T_INT, T_BOOL) and x < 0.25:
             return ("lit", ty)
         if depth > 0 and x > 0.75 and gc_copyable(ty) and self.callees:
@@ -1075,7 +1096,7 @@ class GCGen:
         rho = dict(th)
         for v in vs:
             if v not in rho or o_vars(rho[v]):
-                rho[v] = (self.closed(1) if r.random() < 0.9 else self.closed(2)) if v % 2 == 0 else ("cv", 0, r.choice([2, 3]))
+                rho[v] = (self.closed(1) if r.random() < 0.9 else self.closed(2)) if v % 2 == 0 else ("cv", 0, r.choice([2, 3, 6]))
         if any(o_vars(o_once(rho, q)) for q in params):
             return None
         args = [self.expr(o_once(rho, q), depth) for q in params]
@@ -1316,6 +1337,11 @@ def gc_run(ctx, callees, cases):
             verdict, classes, rty = gc_judge(callees, e, mode, ret)
             out = feed.check_outcome(getattr(m, f"c{i}"))
             got = out[0] if out[0] == "ok" else ("user:" + feed.err_class(out[1]) if out[0] == "user" else "crash:" + type(out[1]).__name__)
+            if out[0] == "user" and type(getattr(out[1], "error", None)).__module__.endswith("errors.linearity"):
+                # the linearity checker runs after type checking: the call itself was accepted by the type checker
+                ctx.bump("gcall:type-check-accepted-then-" + feed.err_class(out[1]))
+                got = "ok"
+                out = ("linearity", out[1])
             one = decls + gc_render(callees, closed_fns, e, mode, ret, "main")
             ctx.count("gcall:" + one, nontrivial=True, kind=f"gcall:{got}:oracle-{verdict}")
             kinds_ = set()
@@ -1324,7 +1350,9 @@ def gc_run(ctx, callees, cases):
                 gc_kinds(ret, kinds_)
             req = gc_model_request(callees, e, mode, ret) if len(kinds_) <= 1 and out[0] != "crash" else None
             if req is not None:
-                if got == "ok":
+                if got == "ok" and out[0] == "linearity":
+                    real_s = None
+                elif got == "ok":
                     try:
                         ins, rty_real = gc_real_inst(m, f"c{i}", callees[e[1]][0], callees[e[1]][1])
                     except Exception as ex_:  # noqa: BLE001
@@ -1498,6 +1526,47 @@ def _corpus_other(kind):
                     if kind in c:
                         out.append((fn, c))
     return out
+
+
+def nonsemantic_tie(ctx):
+    """Types that differ only in fields excluded from equality (TupleType/NoneType.preserve, FuncInput.name) are the same
+    type: ==, hash, unify, substitute and the canonical encoding must not tell them apart."""
+    from guppylang_internals.error import InternalGuppyError
+    from guppylang_internals.tys.ty import unify
+    rng = ctx.rng
+    gen = Gen(rng, explicit_comptime=False)
+
+    def h(x):
+        try:
+            return ("hash", hash(x))
+        except TypeError:
+            return ("unhashable",)
+
+    for _ in range(ctx.n(400, 20000)):
+        t = gen.ty(rng.choice([1, 2, 3]))
+        try:
+            A, B = build(t), build(t, pres=True)
+        except InternalGuppyError:
+            continue
+        line = "eqnf " + sx(t)
+        ctx.count(line, nontrivial=False, kind="eqnf")
+        bad = None
+        try:
+            if not (A == B and B == A):
+                bad = "the two types compare unequal"
+            elif h(A) != h(B):
+                bad = "the two types hash differently"
+            elif unify(A, B, {}) != {} or unify(B, A, {}) != {}:
+                bad = "unify does not identify the two types"
+            elif enc(A) != enc(B):
+                bad = "canonical encodings differ"
+            elif A.substitute({}) != B or B.substitute({}) != A:
+                bad = "substitution tells the two types apart"
+        except Exception as ex:  # noqa: BLE001
+            bad = f"comparison raised {type(ex).__name__}"
+        if bad:
+            ctx.violation("input:" + line, f"types differing only in non-semantic fields (preserve flags, input names): {bad}: {sx(t)}",
+                          {"type": t, "line": line})
 
 
 def tie(ctx):
@@ -1693,6 +1762,7 @@ def tie(ctx):
 
     # ---- generated generic-call programs through the real check()
     gc_tie(ctx)
+    nonsemantic_tie(ctx)
 
     # ---- whole programs from the corpus (generic calls end to end)
     import feed
